@@ -204,15 +204,46 @@ def check_occluders(ctx, R="C17.occluders"):
         raise AnalysisError("shape not recognised: canSee no longer fills the target distance map")
     az = lib.locals_assigned(fn, lambda v: "arctan2" in unparse(v))
     al = lib.locals_assigned(fn, lambda v: "arcsin" in unparse(v))
-    cone = [r for r in rets if any("viewAngles[0] / 2" in unparse(t) and any(a in lib.names_loaded(t) for a in az) for t, p in lib.guard_tests(r, fn))]
-    if cone and len(az) == 1 and len(al) == 1:
-        t = unparse([t for t, p in lib.guard_tests(cone[0], fn)][0])
-        if f"not -viewAngles[0] / 2 <= {az[0]} <= viewAngles[0] / 2" in t and f"not -viewAngles[1] / 2 <= {al[0]} <= viewAngles[1] / 2" in t:
-            ctx.ok(R, cone[0], "a point outside the horizontal or vertical view angle is not visible")
-        else:
-            ctx.finding(R, cone[0], "view cone test", f"canSee's point branch tests `{t}`; both |azimuth| <= viewAngles[0]/2 and |altitude| <= viewAngles[1]/2 are required")
+    # every answer other than `False` of the point branch (the branch that computes azimuth and altitude) is given only
+    # when both angles are within the view cone: the conditions of its path contain -vA/2 <= angle and angle <= vA/2
+    # (or |angle| <= vA/2) for both angles
+    if len(az) != 1 or len(al) != 1:
+        raise AnalysisError("shape not recognised: azimuth / altitude of canSee's point branch")
+    az_def = next(n for n in walk_local(fn) if isinstance(n, ast.Assign) and isinstance(n.targets[0], ast.Name) and n.targets[0].id == az[0])
+    branch_block = parent(az_def)
+    answers = [
+        r
+        for r in walk_local(fn)
+        if isinstance(r, ast.Return)
+        and not (isinstance(r.value, ast.Constant) and r.value.value is False)
+        and r.lineno > az_def.lineno
+        and (branch_block is fn or any(a is branch_block for a in ancestors(r)))
+    ]
+    if not answers:
+        raise AnalysisError("shape not recognised: canSee's point branch has no positive answer")
+
+    def within(conds, angle, idx):
+        half = f"viewAngles[{idx}] / 2"
+        have = {lib.ctext(t) for t, p in conds if p}
+        # a false strict comparison the other way round is the same fact for real angles
+        for t, p in conds:
+            if not p and isinstance(t, ast.Compare) and len(t.ops) == 1 and isinstance(t.ops[0], (ast.Lt, ast.Gt)):
+                inv = ast.Compare(left=t.left, ops=[ast.GtE() if isinstance(t.ops[0], ast.Lt) else ast.LtE()], comparators=t.comparators)
+                have.add(lib.ctext(inv))
+        two_sided = lib.ctext_of(f"-{half} <= {angle}") in have and lib.ctext_of(f"{angle} <= {half}") in have
+        return two_sided or lib.ctext_of(f"abs({angle}) <= {half}") in have
+
+    bad = []
+    for r in answers:
+        conds = lib.flatten_conditions(lib.guard_tests(r, fn))
+        if not (within(conds, az[0], 0) and within(conds, al[0], 1)):
+            bad.append((r, conds))
+    if not bad:
+        ctx.ok(R, answers[0], "a point outside the horizontal or vertical view angle is not visible")
     else:
-        ctx.finding(R, fn, "view cone test", "canSee's point branch no longer rejects rays outside the view angles")
+        r, conds = bad[0]
+        t = "; ".join(("" if p else "not ") + unparse(t) for t, p in conds if "viewAngles" in unparse(t)) or "nothing about the view angles"
+        ctx.finding(R, r, "view cone test", f"canSee's point branch answers `{norm_text(r, 40)}` having tested `{t}`; both |azimuth| <= viewAngles[0]/2 and |altitude| <= viewAngles[1]/2 are required")
 
 
 def check_wrappers(ctx, R="C17.wrappers"):
@@ -274,7 +305,16 @@ def check_wrappers(ctx, R="C17.wrappers"):
             ctx.finding(R, cs, f"{cname}.canSee forwarding", f"{cname}.canSee does not forward its target / occludingObjects unchanged")
     p2 = model.cls(OT, "Point2D")
     cs = p2.methods.get("canSee")
-    if cs is not None and "if not occludingObjects" in unparse(cs) and "self._3DClass.canSee(self, other, occludingObjects)" in unparse(cs):
+    good2d = False
+    if cs is not None:
+        occ = cs.args.args[2].arg if len(cs.args.args) >= 3 else "occludingObjects"
+        tgt = cs.args.args[1].arg if len(cs.args.args) >= 2 else "other"
+        rets2 = [r for r in lib.returns_of(cs) if r.value is not None]
+        general = [r for r in rets2 if unparse(r.value) == f"self._3DClass.canSee(self, {tgt}, {occ})"]
+        flat = [r for r in rets2 if r not in general]
+        # the region-based answer is given only when nothing occludes; otherwise the general ray test answers
+        good2d = bool(general) and all(lib.holds(lib.guard_tests(r, cs), f"not {occ}", f"len({occ}) == 0") for r in flat)
+    if good2d:
         ctx.ok(R, cs, "2-D: region-based answer only when there are no occluders, otherwise the general ray test")
     else:
         ctx.finding(R, cs or p2.node, "Point2D.canSee", "Point2D.canSee no longer falls back to the 3-D ray test when occluders are given")
